@@ -22,19 +22,19 @@ func init() {
 
 	register(&core.Rule{ID: "C11.1", Prop: "C11", MinSites: 2,
 		Desc: "ReadFrom: on every path from r.Read(b) to a return or to the next Read, the counted bytes b[:m] are pushed into the list unless m == 0 is established",
-		Run: runC11_1})
+		Run:  runC11_1})
 	register(&core.Rule{ID: "C11.2", Prop: "C11", MinSites: 7,
 		Desc: "no empty node: every pushBack/pushFront call site is dominated by a test establishing a positive segment length",
-		Run: runC11_2})
+		Run:  runC11_2})
 	register(&core.Rule{ID: "C11.3", Prop: "C11", MinSites: 8,
 		Desc: "bookkeeping: head/tail/size/bytes are written only in pop/pushFront/pushBack/Reset, and each list primitive changes size by 1 and bytes by the node length exactly once on every relinking path",
-		Run: runC11_3})
+		Run:  runC11_3})
 	register(&core.Rule{ID: "C11.4", Prop: "C11", MinSites: 2,
 		Desc: "copy-in: PushBack/PushFront store a slice obtained from the byte pool and filled by copy, never their parameter",
-		Run: runC11_4})
+		Run:  runC11_4})
 	register(&core.Rule{ID: "C11.5", Prop: "C11", MinSites: 5,
 		Desc: "observers Peek, PeekWithBytes, Len, Buffered, IsEmpty write no field and call no list primitive",
-		Run: runC11_5})
+		Run:  runC11_5})
 }
 
 type llAnch struct {
